@@ -228,7 +228,7 @@ def gen_steps(rng, names, n):
 
 def gen_inputs(tier, rng):
     big = tier == "thorough"
-    n = 400 if big else 24
+    n = 300 if big else 24
     for i in range(n):
         A = gen_array(rng)
         for op in ("a_tris", "a_up", "a_nbr"):
@@ -255,15 +255,15 @@ def gen_inputs(tier, rng):
         yield dict(L, op="c_limits")
         yield dict(L, op=rng.choice(["al_up", "al_nbr", "al_for", "al_contain"]), seed=rng.randrange(10 ** 9), shape=gen_shape(rng))
     # sessions: one object, several calls (repeats, re-used shapes, in-place edits, the object replaced by its own results)
-    for i in range(250 if big else 26):
+    for i in range(200 if big else 26):
         A = gen_array(rng)
         yield dict(A, op="a_session", steps=gen_steps(rng, A_STEPS, rng.randint(5, 9)))
-    for i in range(250 if big else 26):
+    for i in range(200 if big else 26):
         C = gen_coord(rng, small=rng.random() < 0.5)
         C["pre"] = []
         yield dict(C, op="c_session", steps=gen_steps(rng, C_STEPS, rng.randint(5, 9)))
     # chains of consecutive up_sample() calls following one child (depth 10-16): sides down to 2^-16 of the start
-    for i in range(30 if big else 5):
+    for i in range(24 if big else 5):
         depth = rng.randint(10, 16)
         sc = rng.choice([Fraction(1), Fraction(1), Fraction(1, 2 ** 10), Fraction(2) ** 20])
         A = gen_array(rng, sc=sc)
